@@ -130,6 +130,8 @@ class Scenario:
             for l in BASE_LINES:
                 gw0.logic(l)
             pu.put(self.main, pu.save_bytes(gw0.sensors, work, self.fmt, name="base"))
+        _, s0 = self.loadable()
+        self.versions = [pu.project(s0)]
 
     def loadable(self):
         for p in (self.main, self.main + ".bak", pu.tmp_name(self.main)):
@@ -201,15 +203,13 @@ class Scenario:
     @staticmethod
     def armed_sync(FT):
         return bool(FT.instances) and FT.instances[-1].started and not FT.instances[-1].cancelled and \
-            all(t is FT.instances[-1] or t.fired_or_cancelled for t in FT.instances)
+            not FT.instances[-1].fired and all(t is FT.instances[-1] or t.fired or t.cancelled for t in FT.instances)
 
     def fire_sync(self, gw, FT, pos):
         if pos == 0:
             gw.start_persistence()
         else:
-            t = FT.instances[-1]
-            t.fired_or_cancelled = True
-            t.fire()
+            FT.instances[-1].fire()
 
     # -- async ---------------------------------------------------------------------------
     def run_async(self, work):
@@ -312,12 +312,17 @@ def model_line(sc):
 
 def impl_events(sc):
     out = []
+    snap_raw = None
     for o in sc.obs:
         if "armed" not in o:
             continue
         load = o["load"]
         if o["event"] == "mok":
-            load = "snap" if snap_consistent(o) else load
+            snap_raw = load if snap_consistent(o) else None
+        if snap_raw is not None and load == snap_raw and load != "raised":
+            load = "snap"      # the file written under a concurrent message: "some snapshot" in the model
+        else:
+            snap_raw = None
         out.append(f"{int(o['armed'])},{int(o['need_save'])},{load},{o['rounds']},{o['cur']}")
     return " ".join(out)
 
